@@ -4091,6 +4091,15 @@ def check_field_call_lint(ck, R):
 
 
 # --------------------------------------------------------------------------------- C14
+def _names_loaded_as_globals(fa, e) -> bool:
+    """Is `e` the collection of the names the instructions of a code object load as globals (`i.argval for i in
+    dis.get_instructions(code) if i.opname in ('LOAD_GLOBAL', 'LOAD_NAME')`, through temporaries)?"""
+    at = fa.nodes(e)[:1]
+    nodes = [e] + [d.value for x in ast.walk(e) if isinstance(x, ast.Name) for i in at for d in fa.df.reaching(i, x.id) if d.value is not None]
+    txt = " ".join(A.norm(n) for n in nodes)
+    return "get_instructions(" in txt and "LOAD_GLOBAL" in txt and "argval" in txt
+
+
 def _unwrapped_param(fa, name, at, _depth=4):
     """If local `name` at CFG node `at` holds parameter P after `while hasattr(v, '__wrapped__'): v = v.__wrapped__` (every
     reaching definition is `v = P` or `v = v.__wrapped__`), or `inspect.unwrap(P)`: P, else None."""
@@ -4224,6 +4233,8 @@ def check_dotted_names(ck, R):
     # filtering loop alike).  Anything else narrows the name set.
     WANT = {"fn.__code__.co_varnames", "fn.__code__.co_cellvars"}
     unwrapped_bases = set()
+    globals_kept = set()
+
     def is_res(e, at, depth=4):
         """does `e` designate the set in which the visitor gathered the names (the visitor instance's field, through any
         local alias)?"""
@@ -4263,6 +4274,11 @@ def check_dotted_names(ck, R):
             return out
         if isinstance(e, ast.Name) and fa.df.is_local(e.id) and e.id not in fa.fi.params:
             ds = fa.df.reaching(at, e.id)
+            # `locals -= <names loaded as globals>` (see the difference_update case below)
+            put_back = [d for d in ds if d.kind == "aug" and isinstance(getattr(d.stmt, "op", None), ast.Sub) and _names_loaded_as_globals(fa, d.value)]
+            if put_back:
+                globals_kept.add(e.id)
+                ds = [d for d in ds if d not in put_back]
             if ds and all(d.kind == "assign" and d.value is not None and not isinstance(d.value, (ast.Attribute, ast.Name)) for d in ds):
                 out = set()
                 for d in ds:
@@ -4272,6 +4288,11 @@ def check_dotted_names(ck, R):
                         if A.call_attr(c) == "update":
                             for a in c.args:
                                 out |= local_sources(a, fa.nodes(c)[0], depth - 1)
+                        elif A.call_attr(c) == "difference_update" and len(c.args) == 1 and _names_loaded_as_globals(fa, c.args[0]):
+                            # the names the code object loads as globals are taken out of the locals again: a comprehension
+                            # variable (inlined since Python 3.12, so listed in co_varnames) that shares its name with a
+                            # global the function also reads does not hide that global (D53)
+                            globals_kept.add(e.id)
                         elif A.call_attr(c) in ("add", "discard", "remove", "difference_update", "intersection_update", "clear", "pop", "symmetric_difference_update"):
                             out.add("<%s>" % A.norm(c))
                 return out
@@ -4415,6 +4436,14 @@ def check_dotted_names(ck, R):
     ck.ob(R, fa.key(None, "locals-of-the-function-read"), oku, "the locals are those of the function whose source is read (looked through its wrappers)" if oku else
           "the source is read through the function's wrappers (inspect.getsource follows __wrapped__) but the locals removed are those of the "
           "wrapper itself: for a decorated helper the names of its own locals stay in the set and real references can be dropped", fa.where())
+    import sys as _sys
+    if _sys.version_info >= (3, 12):
+        okg = bool(globals_kept)
+        ck.ob(R, fa.key(None, "comprehension-variables-do-not-hide-globals"), okg,
+              "names the code loads as globals stay references even when a comprehension variable has the same name" if okg else
+              "since Python 3.12 comprehension variables are listed in co_varnames of the enclosing function: subtracting co_varnames as it "
+              "is drops a global that shares its name with a comprehension variable (`[k * 2 for k in xs] + [k]`), so editing that global "
+              "keeps the version and a memento function of that name is missing from the closure", fa.where())
     okd = covers_l and (covers_c or bool(selects))
     ck.ob(R, fa.key(None, "difference"), okd, "locals and chains rooted at locals are subtracted" if okd else
           "list_dotted_names no longer subtracts both locals and local-rooted chains", fa.where())
